@@ -9,7 +9,7 @@ use serde::{Deserialize, Serialize};
 use serde_json::json;
 use std::cell::Cell;
 
-const RULE: &str = "cases = (macro group, variant Some/None/Ok/Err, payload, second payload); every option::/result:: macro in every accepted argument form (inline closure, closure with pattern parameter, function path) is compared with the std method of the same name on the same value, the fallback/mapper call counter must equal std's (0 or 1); try_!/try_opt! (with and without map_err) against `?`; min!/max!/min_by!/max_by!/min_by_key!/max_by_key! against std::cmp on keyed values with distinguishable identity (which argument is returned, incl. equal keys) and on primitives; non-trivial = the variant that triggers the fallback, boundary payloads, equal keys with different tags; distinct by the whole case";
+const RULE: &str = "cases = (macro group, variant Some/None/Ok/Err, payload, second payload); every option::/result:: macro in every accepted argument form (inline closure, closure with pattern parameter, function path) is compared with the std method of the same name on the same value, the fallback/mapper call counter must equal std's (0 or 1), and with effectful subject / value-argument expressions the number of evaluations must equal the method call's (each exactly once); try_!/try_opt! (with and without map_err) against `?`; min!/max!/min_by!/max_by!/min_by_key!/max_by_key! against std::cmp on keyed values with distinguishable identity (which argument is returned, incl. equal keys) and on primitives; non-trivial = the variant that triggers the fallback, boundary payloads, equal keys with different tags; distinct by the whole case";
 
 #[derive(Serialize, Deserialize, Debug, Clone, Hash)]
 struct Case {
@@ -104,6 +104,17 @@ fn option_macros(v: Option<i64>, b: i64) -> Result<(), String> {
     for outer in [Some(v), None] {
         same!("option::flatten!", option::flatten!(outer), outer.flatten());
     }
+    // argument expressions with an effect: like the method call, every macro evaluates its subject and its value
+    // argument exactly once, whichever variant the subject has (the call counter sees a skipped or repeated one)
+    same!("option::unwrap_or!(effectful arguments)", option::unwrap_or!({ tick(); v }, { tick(); tick(); b }), { tick(); v }.unwrap_or({ tick(); tick(); b }));
+    same!("option::ok_or!(effectful arguments)", option::ok_or!({ tick(); v }, { tick(); tick(); b }), { tick(); v }.ok_or({ tick(); tick(); b }));
+    same!("option::unwrap_or_else!(effectful subject)", option::unwrap_or_else!({ tick(); v }, fb), { tick(); v }.unwrap_or_else(fb));
+    same!("option::ok_or_else!(effectful subject)", option::ok_or_else!({ tick(); v }, fb), { tick(); v }.ok_or_else(fb));
+    same!("option::map!(effectful subject)", option::map!({ tick(); v }, mapper), { tick(); v }.map(mapper));
+    same!("option::and_then!(effectful subject)", option::and_then!({ tick(); v }, opt_mapper), { tick(); v }.and_then(opt_mapper));
+    same!("option::or_else!(effectful subject)", option::or_else!({ tick(); v }, fb_opt), { tick(); v }.or_else(fb_opt));
+    same!("option::filter!(effectful subject)", option::filter!({ tick(); v }, pred), { tick(); v }.filter(pred));
+    same!("option::flatten!(effectful subject)", option::flatten!({ tick(); Some(v) }), { tick(); Some(v) }.flatten());
     if v.is_some() {
         same!("option::unwrap!", option::unwrap!(v), v.unwrap());
     } else {
@@ -129,6 +140,14 @@ fn result_macros(v: Result<i64, i64>, b: i64) -> Result<(), String> {
     same!("result::and_then!(fn)", result::and_then!(v, res_mapper), v.and_then(res_mapper));
     same!("result::or_else!(closure)", result::or_else!(v, |e| { tick(); if e > b { Ok::<i64, i64>(e) } else { Err(b) } }), v.or_else(|e| { tick(); if e > b { Ok::<i64, i64>(e) } else { Err(b) } }));
     same!("result::or_else!(fn)", result::or_else!(v, res_mapper), v.or_else(res_mapper));
+    same!("result::unwrap_or!(effectful arguments)", result::unwrap_or!({ tick(); v }, { tick(); tick(); b }), { tick(); v }.unwrap_or({ tick(); tick(); b }));
+    same!("result::unwrap_or_else!(effectful subject)", result::unwrap_or_else!({ tick(); v }, mapper), { tick(); v }.unwrap_or_else(mapper));
+    same!("result::ok!(effectful subject)", result::ok!({ tick(); v }), { tick(); v }.ok());
+    same!("result::err!(effectful subject)", result::err!({ tick(); v }), { tick(); v }.err());
+    same!("result::map!(effectful subject)", result::map!({ tick(); v }, mapper), { tick(); v }.map(mapper));
+    same!("result::map_err!(effectful subject)", result::map_err!({ tick(); v }, mapper), { tick(); v }.map_err(mapper));
+    same!("result::and_then!(effectful subject)", result::and_then!({ tick(); v }, res_mapper), { tick(); v }.and_then(res_mapper));
+    same!("result::or_else!(effectful subject)", result::or_else!({ tick(); v }, res_mapper), { tick(); v }.or_else(res_mapper));
     Ok(())
 }
 
@@ -239,6 +258,25 @@ fn minmax_keyed(a: i64, b: i64) -> Result<(), String> {
     tagged!("max_by_key!(fn)", max_by_key!(l, r, key_of), std::cmp::max_by_key(l, r, key_of));
     tagged!("min_by_key!(coarse key)", min_by_key!(l, r, |x| x.key / 2), std::cmp::min_by_key(l, r, |x| x.key / 2));
     tagged!("max_by_key!(coarse key)", max_by_key!(l, r, |x| x.key / 2), std::cmp::max_by_key(l, r, |x| x.key / 2));
+    // argument expressions with an effect are evaluated exactly once each, and a key function is called once per
+    // argument (as std::cmp's functions do)
+    macro_rules! counted {
+        ($name:literal, $k:expr, $o:expr) => {{
+            calls();
+            let k: K = $k;
+            let kc = calls();
+            let o: K = $o;
+            let oc = calls();
+            ensure!(k.tag == o.tag && k.key == o.key, "{}(keys {a},{b}): konst returned argument #{} std argument #{}", $name, k.tag, o.tag);
+            ensure!(kc == oc, "{}(keys {a},{b}): konst evaluated its arguments / key function {} time(s), std {}", $name, kc, oc);
+        }};
+    }
+    counted!("min!(effectful arguments)", min!({ tick(); l }, { tick(); tick(); r }), std::cmp::min({ tick(); l }, { tick(); tick(); r }));
+    counted!("max!(effectful arguments)", max!({ tick(); l }, { tick(); tick(); r }), std::cmp::max({ tick(); l }, { tick(); tick(); r }));
+    counted!("min_by!(effectful arguments)", min_by!({ tick(); l }, { tick(); tick(); r }, cmp_k), std::cmp::min_by({ tick(); l }, { tick(); tick(); r }, cmp_k));
+    counted!("max_by!(effectful arguments)", max_by!({ tick(); l }, { tick(); tick(); r }, cmp_k), std::cmp::max_by({ tick(); l }, { tick(); tick(); r }, cmp_k));
+    counted!("min_by_key!(counted key fn)", min_by_key!({ tick(); l }, { tick(); tick(); r }, |x| { tick(); tick(); tick(); tick(); x.key }), std::cmp::min_by_key({ tick(); l }, { tick(); tick(); r }, |x| { tick(); tick(); tick(); tick(); x.key }));
+    counted!("max_by_key!(counted key fn)", max_by_key!({ tick(); l }, { tick(); tick(); r }, |x| { tick(); tick(); tick(); tick(); x.key }), std::cmp::max_by_key({ tick(); l }, { tick(); tick(); r }, |x| { tick(); tick(); tick(); tick(); x.key }));
     Ok(())
 }
 
